@@ -68,6 +68,12 @@ def mismatch_cases():
 
 
 def plan(tier, seed):
+    from mc import imporder
+
+    return _plan(tier, seed) + [imporder.phase(tier, 'blocks')]
+
+
+def _plan(tier, seed):
     ops = op_cases()
     pairs = [{'x': x, 'y': y} for x, y in itertools.product(ops, repeat=2)]
     if tier == 'quick':
